@@ -41,7 +41,7 @@ func trusted(ex *Exec, s string) { ex.W.Trusted[s] = true }
 
 func modelBytesSplit(ex *Exec, st *State, fn *types.Func, args []*Val, e *ast.CallExpr) ([]*Val, bool) {
 	s, sep := args[0].Term, args[1].Term
-	trusted(ex, "library contract: bytes.Split(s,sep) with len(sep)==1 returns n>=1 subslices of s, in order, separated by exactly the sep bytes, none containing sep, covering s")
+	trusted(ex, "library contract: bytes.Split(s,sep) with len(sep)==1 returns n>=1 subslices of s, in order (piece 0 starts at 0, piece k+1 starts one past the end of piece k where s holds sep, the last piece ends at len(s)), none containing sep, covering s")
 	rt := fn.Type().(*types.Signature).Results().At(0).Type()
 	ref := ex.newRef(st)
 	n := ex.fresh("split.n", SInt)
